@@ -43,6 +43,8 @@ type ConcCase struct {
 
 type concStats struct {
 	scansOverlappingWrites int64
+	moves                  int64
+	scansOverlappingMoves  int64
 	lookups                int64
 	writes                 int64
 }
@@ -161,6 +163,60 @@ func runConc(c *ConcCase, cs *concStats) *vf.Failure {
 		}(w)
 	}
 	var aux sync.WaitGroup
+	// one entry that is only ever moved: UpdateEntry(old key -> new key, same row id) in a key range of its own. UpdateEntry
+	// is documented as "delete first entry and insert second entry atomically": every scan of that range finds it exactly once
+	moverKey := int32(3000000)
+	moverRID := page.RID{PageID: 9, SlotNum: 4242}
+	if ordered {
+		e.idx.InsertEntry(kt(moverKey), moverRID, nil)
+		aux.Add(2)
+		go func() {
+			defer aux.Done()
+			defer func() {
+				if x := recover(); x != nil {
+					setFail(vf.Failf("conc-panic:"+c.Kind, "mover panicked: %v", x))
+				}
+			}()
+			rng := rand.New(rand.NewSource(c.Seed*7919 + 5))
+			for atomic.LoadInt32(&stop) == 0 && !failed() {
+				nk := int32(3000000 + 10*rng.Intn(200))
+				if nk == moverKey {
+					continue
+				}
+				e.idx.UpdateEntry(kt(moverKey), moverRID, kt(nk), moverRID, nil)
+				moverKey = nk
+				atomic.AddInt64(&cs.moves, 1)
+			}
+		}()
+		go func() {
+			defer aux.Done()
+			defer func() {
+				if x := recover(); x != nil {
+					setFail(vf.Failf("conc-panic:"+c.Kind, "mover scanner panicked: %v", x))
+				}
+			}()
+			cc := &Case{Kind: c.Kind, KeyT: keyT}
+			lo, hi := kv(3000000), kv(3000000+2000)
+			if c.Wide {
+				lo = dbh.StrV(fmt.Sprintf("%08d", 3000000))
+			}
+			for atomic.LoadInt32(&stop) == 0 && !failed() {
+				m0 := atomic.LoadInt64(&cs.moves)
+				got, f := scanRange(e, cc, &lo, &hi)
+				if f != nil {
+					setFail(f)
+					return
+				}
+				if atomic.LoadInt64(&cs.moves) != m0 {
+					atomic.AddInt64(&cs.scansOverlappingMoves, 1)
+				}
+				if len(got) != 1 || got[0].rid != moverRID {
+					setFail(vf.Failf("conc-update-not-atomic:"+c.Kind, "an entry is moved from key to key with UpdateEntry (nothing else touches its key range); a range scan over that range returned %d entries: %s", len(got), fmtEntries(got)))
+					return
+				}
+			}
+		}()
+	}
 	for r := 0; r < c.Readers; r++ {
 		aux.Add(1)
 		go func(r int) {
@@ -264,6 +320,9 @@ func runConc(c *ConcCase, cs *concStats) *vf.Failure {
 		}
 	}
 	if ordered {
+		want[moverKey] = moverRID
+	}
+	if ordered {
 		got, f := scanRange(e, &Case{Kind: c.Kind, KeyT: keyT}, nil, nil)
 		if f != nil {
 			return f
@@ -325,6 +384,7 @@ func TestConcurrent(t *testing.T) {
 		f, _ := vf.WithTimeout(150*time.Second, func() *vf.Failure { return runConc(c, cs) })
 		s.Count(c, cs.scansOverlappingWrites > 0 || (c.Kind == dbh.IdxHash && cs.lookups > 0), "concurrent", "concurrent-kind:"+c.Kind)
 		s.Class("concurrent-scans-overlapping-writes", cs.scansOverlappingWrites)
+		s.Class("concurrent-scans-overlapping-an-entry-move", cs.scansOverlappingMoves)
 		s.Class("concurrent-stable-lookups", cs.lookups)
 		if f != nil {
 			s.Judge(t, c, f)
